@@ -616,7 +616,7 @@ def check(P, R, tier):
     # the years / months / weeks a format asks for come from the calendar differences: decoded over their whole domain
     import diffdecode
     dtu = P.tu("libdut_a-date-core.o")
-    n = diffdecode.check_yd(R, dtu, "RF2-diff") + diffdecode.check_ymd(R, dtu, "RF2-diff") + diffdecode.check_ywd(R, dtu, "RF2-diff")
+    n = diffdecode.check_all(R, dtu, "RF2-diff")
     R.floor("RF2-diff", "decoded points of the year/day, year/month/day and year/week/day differences", n, 3000000)
 
 
